@@ -45,10 +45,19 @@ def codeLt : List Char → List Char → Bool
   | _ :: _, [] => false
   | a :: as, b :: bs => if a.toNat < b.toNat then true else if b.toNat < a.toNat then false else codeLt as bs
 
-/-- `cmd/compile/internal/types.(*Sym).Less`: exported before non-exported, then by name (package path ties do not
-    occur: all unexported methods of the generated interfaces come from one package). -/
+/-- package path of a qualified method id; own-package (and exported) methods carry none -/
+def pkgOf (q : String) : String :=
+  match (q.toList.dropWhile (fun c => c != '@')) with
+  | _ :: p => String.ofList p
+  | [] => "github.com/tencent/goom"
+
+def nameOf (q : String) : String := String.ofList (q.toList.takeWhile (fun c => c != '@'))
+
+/-- `cmd/compile/internal/types.(*Sym).Less`: exported before non-exported, then by name, then by package path -/
 def methLt (a b : String) : Bool :=
-  if isExported a != isExported b then isExported a else codeLt a.toList b.toList
+  if isExported a != isExported b then isExported a
+  else if nameOf a != nameOf b then codeLt (nameOf a).toList (nameOf b).toList
+  else codeLt (pkgOf a).toList (pkgOf b).toList
 
 def insertM (x : String) : List String → List String
   | [] => [x]
@@ -57,12 +66,24 @@ def insertM (x : String) : List String → List String
 /-- the method set as `reflect.Type.Method(i)` enumerates it -/
 def sortMeths (decl : List String) : List String := decl.foldr insertM []
 
-/-- internal/proxy/interface.go:63 `methodIndexOf`: first `i` with `typ.Method(i).Name == method`, else 0 -/
+/-- A method of an interface type is identified by name AND package path (Go spec: unexported names from different packages
+    are different).  The model writes exported and own-package methods as `name` and an unexported method that came in by
+    embedding an interface of another package as `name@pkgpath`.  `reflect.Method.Name` is the part before `@`. -/
+def baseName (q : String) : String := nameOf q
+
+/-- iface.go:79 `checkMethod`: `reflect.Type.MethodByName(name)` looks at the name only -/
+def hasMethod (ms : List String) (m : String) : Bool := ms.any (fun q => baseName q == m)
+
+/-- internal/proxy/interface.go:89 `methodIndexOf`: first `i` with `typ.Method(i).Name == method` (name only!), else 0 -/
 def methodIndexFrom : List String → String → Nat → Option Nat
   | [], _, _ => none
-  | x :: xs, m, i => if m = x then some i else methodIndexFrom xs m (i + 1)
+  | x :: xs, m, i => if m = baseName x then some i else methodIndexFrom xs m (i + 1)
 
 def methodIndexOf (ms : List String) (m : String) : Nat := (methodIndexFrom ms m 0).getD 0
+
+/-- no method of the set shares `m`'s name without being `m` (false exactly when an embedded foreign interface brings an
+    unexported method with the same name as an own one — finding F27) -/
+def NoShadow (ms : List String) (m : String) : Prop := ∀ x ∈ ms, (m = baseName x ↔ m = x)
 
 /-! ## State -/
 
@@ -135,6 +156,7 @@ deriving Inhabited
 
 structure St where
   types : Nat → List String          -- static: sorted method set of each interface type
+  sigs : Nat → List Nat := fun _ => []   -- static: signature class of each method, aligned with `types`
   vtyp : Nat → Nat                   -- static: type of each variable
   vars : Nat → Words
   fakes : Nat → Fake
@@ -151,8 +173,9 @@ structure St where
   /-- ghost of the test program: `CachedInterfaceMocker` handles it kept from `b.Interface(&v)`, keyed by (b, v) -/
   kept : List ((Nat × Nat) × Nat) := []
 
-def St.init (types : Nat → List String) (vtyp : Nat → Nat) (vars : Nat → Words) : St :=
-  { types, vtyp, vars, fakes := fun _ => default, nfake := 0, ctxs := fun _ => {}, nctx := 0,
+def St.init (types : Nat → List String) (vtyp : Nat → Nat) (vars : Nat → Words)
+    (sigs : Nat → List Nat := fun _ => []) : St :=
+  { types, sigs, vtyp, vars, fakes := fun _ => default, nfake := 0, ctxs := fun _ => {}, nctx := 0,
     mms := fun _ => { ctx := 0 }, nmm := 0, cms := fun _ => { var := 0, typ := 0, ctx := 0 }, ncm := 0,
     blds := fun _ => {}, cbs := fun _ => .clo, ncb := 0, kept := [] }
 
@@ -163,11 +186,13 @@ inductive Kind
 deriving DecidableEq, Repr
 
 inductive Op
-  /-- `b.Interface(&v).Method(m).<kind>`; the callback gets id `ncb`; `fits` = its signature fits the method
-      (internal/proxy/interface.go:36-44 arg count and `checkSignature`, decided by reflect) -/
-  | mock (b v : Nat) (m : String) (kind : Kind) (fits : Bool)
+  /-- `b.Interface(&v).Method(m).<kind>`; the callback gets id `ncb` and has signature class `csig`
+      (internal/proxy/interface.go:36-44 arg count and `checkSignature` compare it with the method at the chosen index) -/
+  | mock (b v : Nat) (m : String) (kind : Kind) (csig : Nat)
   /-- the same through a `CachedInterfaceMocker` handle the test kept from its first `b.Interface(&v)` -/
-  | mockH (b v : Nat) (m : String) (kind : Kind) (fits : Bool)
+  | mockH (b v : Nat) (m : String) (kind : Kind) (csig : Nat)
+  /-- the test program assigns the variable: `v = nil` / `v = &impl{x}` -/
+  | assign (v x : Nat)
   /-- `b.Interface(&v).Method(m).Cancel()`: cancel through ONE method's handle (mocker.go:156; it cancels the shared context) -/
   | cancelM (b v : Nat) (m : String)
   | reset (b : Nat)                               -- b.Reset()
@@ -246,7 +271,7 @@ def mockOn (cfg : Cfg) (s : St) (j : Nat) (m : String) (kind : Kind) (fits : Boo
   let cm := s.cms j
   -- iface.go:69 Method / :79 checkMethod: on the type of the mocker's own iFace
   if m = "" then some (s, .panic "method-is-empty") else
-  if ¬ (m ∈ s.types cm.typ) then some (s, .panic "nomethod") else
+  if ¬ (hasMethod (s.types cm.typ) m) then some (s, .panic "nomethod") else
   let (i, s) := methodOf s j m
   let mm := s.mms i
   match kind with
@@ -270,22 +295,27 @@ def mockOn (cfg : Cfg) (s : St) (j : Nat) (m : String) (kind : Kind) (fits : Boo
       (proxyInterface cfg s cm.var cm.typ cm.ctx m k (.mk i)).map fun s =>
         ({ s with mms := upd s.mms i { mm with hasGuard := true, imp := some k, canceled := false, when_ := some ⟨none, [(a, k)]⟩ } }, .ok)
 
+/-- internal/proxy/interface.go:34-44: the callback (signature class `csig`) is compared with the method at
+    `methodIndexOf` — the signature classes stand for reflect's arg/result counts and slot sizes -/
+def sigFits (s : St) (t : Nat) (m : String) (csig : Nat) : Bool :=
+  (s.sigs t)[methodIndexOf (s.types t) m]? == some csig
+
 /-- `b.Interface(&v).Method(m)…` -/
-def mockStep (cfg : Cfg) (s : St) (b v : Nat) (m : String) (kind : Kind) (fits : Bool) : Option (St × Status) :=
+def mockStep (cfg : Cfg) (s : St) (b v : Nat) (m : String) (kind : Kind) (csig : Nat) : Option (St × Status) :=
   let k := s.ncb
   let s := { s with ncb := k + 1 }
   let (j, s) := interfaceOf cfg s b v
-  mockOn cfg s j m kind fits k
+  mockOn cfg s j m kind (sigFits s (s.cms j).typ m csig) k
 
 /-- `h.Method(m)…` where `h` is the handle kept from the first `b.Interface(&v)` of the test (obtained now if there is none) -/
-def mockHStep (cfg : Cfg) (s : St) (b v : Nat) (m : String) (kind : Kind) (fits : Bool) : Option (St × Status) :=
+def mockHStep (cfg : Cfg) (s : St) (b v : Nat) (m : String) (kind : Kind) (csig : Nat) : Option (St × Status) :=
   let k := s.ncb
   let s := { s with ncb := k + 1 }
   match lookup (b, v) s.kept with
-  | some j => mockOn cfg s j m kind fits k
+  | some j => mockOn cfg s j m kind (sigFits s (s.cms j).typ m csig) k
   | none =>
     let (j, s) := interfaceOf cfg s b v
-    mockOn cfg { s with kept := insertKV (b, v) j s.kept } j m kind fits k
+    mockOn cfg { s with kept := insertKV (b, v) j s.kept } j m kind (sigFits s (s.cms j).typ m csig) k
 
 /-- make_interface.go:22 `IContext.Cancel`; `none` if there is no backup (a nil dereference in the Go code; unreachable
     because a guard exists only after `BackUpTo`) -/
@@ -317,13 +347,14 @@ def resetStep (s : St) (b : Nat) : Option St := cancelMMs s (mmsOf s b)
 def cancelMStep (cfg : Cfg) (s : St) (b v : Nat) (m : String) : Option (St × Status) :=
   let (j, s) := interfaceOf cfg s b v
   if m = "" then some (s, .panic "method-is-empty") else
-  if ¬ (m ∈ s.types (s.cms j).typ) then some (s, .panic "nomethod") else
+  if ¬ (hasMethod (s.types (s.cms j).typ) m) then some (s, .panic "nomethod") else
   let (i, s) := methodOf s j m
   (cancelMM s i).map fun s => (s, .ok)
 
 def step (cfg : Cfg) (s : St) : Op → Option (St × Status)
-  | .mock b v m kind fits => mockStep cfg s b v m kind fits
-  | .mockH b v m kind fits => mockHStep cfg s b v m kind fits
+  | .mock b v m kind csig => mockStep cfg s b v m kind csig
+  | .mockH b v m kind csig => mockHStep cfg s b v m kind csig
+  | .assign v x => some ({ s with vars := upd s.vars v (.val x) }, .ok)
   | .cancelM b v m => cancelMStep cfg s b v m
   | .reset b => (resetStep s b).map fun s => (s, .ok)
   | .drop b => some ({ s with blds := upd s.blds b { s.blds b with alive := false } }, .ok)
